@@ -5559,7 +5559,7 @@ int CLUFactor<R>::vSolveUpdateRight(R* vec, int* ridx, int n, R eps)
 
    for(i = l.firstUpdate; i < end; ++i)
    {
-      assert(i >= 0 && i < thedim);
+      assert(i >= 0 && i < l.startSize);
       x = vec[lrow[i]];
 
       if(isNotZero(x, eps))
@@ -5604,7 +5604,7 @@ void CLUFactor<R>::vSolveUpdateRightNoNZ(R* vec, R /*eps*/)
 
    for(i = l.firstUpdate; i < end; ++i)
    {
-      assert(i >= 0 && i < thedim);
+      assert(i >= 0 && i < l.startSize);
 
       if((x = vec[lrow[i]]) != 0.0)
       {
